@@ -16,6 +16,7 @@ and writes lean/FairModel/Generated/ThresholderSrc.lean.  `Model/Threshold.lean`
 import ast
 
 from .. import translate
+from . import normalize
 from ..translate import Untranslatable
 from .threshold import _expr, _str_const
 from .tradeoff import CMP, _body, _int, _name, _single_assigns, only_statements
@@ -295,11 +296,11 @@ def _delegation(tree):
 
 @translate.lifter
 def lift_thresholder(repo):
-    ops = _operation(ast.parse(translate._read(repo, OPF)))
-    it = ast.parse(translate._read(repo, ITF))
+    ops = _operation(normalize.parse(translate._read(repo, OPF)))
+    it = normalize.parse(translate._read(repo, ITF))
     pm = _pmf(it)
     pr = _predict(it)
-    _delegation(ast.parse(translate._read(repo, TOF)))
+    _delegation(normalize.parse(translate._read(repo, TOF)))
     L = ["/-\nGENERATED by harness/lifters/thresholder.py from\n  " + "\n  ".join([OPF, ITF, TOF]) +
          "\nDo not edit: rewritten on every run from the tree under check.\n-/\nset_option linter.unusedVariables false\n",
          "namespace ThresholderSrc\n"]
